@@ -90,7 +90,10 @@ public:
         T const err_all = result.error();
         T const rel_err_all = err_all / fabs(val_all);
 
-        bool const perform_more_iterations = rel_err_all > target_rel_err_;
+        // stop only if a target precision was requested and if it has been reached; in particular a
+        // relative error which is zero or not a number does not end the integration prematurely
+        bool const perform_more_iterations = !((target_rel_err_ > T()) &&
+            (rel_err_all <= target_rel_err_));
 
         if ((mode_ == callback_mode::verbose) || (mode_ == callback_mode::verbose_and_write_chkpt))
         {
